@@ -788,6 +788,14 @@ func c05Raw(c *mon.Case, sp c05Spec) {
 				if rnd.Intn(2) == 0 {
 					c.AwaitOrViolate(r.proto+"/dropped-connection-not-detached", fmt.Sprintf("pipe %d detaching after peer close", q.pipe.n), func() bool { return r.detached(q.pipe.id) }, mon.AwaitOpts{})
 					c.Count("drops_waited_detach", 1)
+					if rnd.Intn(2) == 0 && len(r.pipes) < 12 {
+						// an unrelated connection arrives after the requester has gone and before the
+						// reply is sent: whatever id it is given, the late reply is not for it
+						if r.addPipe() == nil {
+							return
+						}
+						c.Count("connections_arriving_between_requester_loss_and_reply", 1)
+					}
 				}
 			}
 			if rnd.Intn(5) == 0 {
